@@ -105,3 +105,41 @@ Definition wev_ok (s : wstate) (e : wev) : bool :=
   | WRegister fd => mem fd (w_towrite s)       (* Listener::dispatchPeer prepares before it queues the peer *)
   | _ => true
   end.
+
+(* ---- what is queued for a descriptor number belongs to one connection (Transport::toWrite) ----
+   Descriptor numbers are reused by the kernel.  Each accepted connection is a new generation of its
+   number; a queued write is tagged with the generation that queued it; what the socket accepts is
+   delivered to the connection that holds the number at that time.  handleNewPeer's
+   toWrite.emplace(fd, {}) does not replace an existing entry, so the queue of a number is emptied
+   only where the code erases it: when it has been drained, and in removePeer ([erase] below). *)
+Inductive qev :=
+| QAccept (fd : nat)        (* a new connection gets this descriptor number *)
+| QQueue (fd : nat)         (* the handler of the current connection queues a write *)
+| QFlush (fd : nat)         (* the socket accepts everything queued *)
+| QClose (fd : nat).        (* the connection ends: removePeer *)
+
+Record qstate := mkQ {
+  q_open : nat -> bool; q_gen : nat -> nat; q_count : nat;
+  q_queue : nat -> list nat;                 (* tags of the writes queued under the number *)
+  q_deliv : list (nat * nat) }.              (* (generation that received, generation that queued) *)
+Definition qinit : qstate := mkQ (fun _ => false) (fun _ => 0) 0 (fun _ => []) [].
+
+Definition qupd {A} (f : nat -> A) (k : nat) (v : A) : nat -> A := fun x => if Nat.eqb x k then v else f x.
+
+Definition qstep (erase : bool) (s : qstate) (e : qev) : qstate :=
+  match e with
+  | QAccept fd => if q_open s fd then s
+                  else mkQ (qupd (q_open s) fd true) (qupd (q_gen s) fd (S (q_count s))) (S (q_count s)) (q_queue s) (q_deliv s)
+  | QQueue fd => if q_open s fd then mkQ (q_open s) (q_gen s) (q_count s) (qupd (q_queue s) fd (q_queue s fd ++ [q_gen s fd])) (q_deliv s)
+                 else s                      (* handleWriteQueue drops writes for unknown peers *)
+  | QFlush fd => if q_open s fd then
+                   mkQ (q_open s) (q_gen s) (q_count s) (qupd (q_queue s) fd [])
+                       (q_deliv s ++ map (fun t => (q_gen s fd, t)) (q_queue s fd))
+                 else s
+  | QClose fd => if q_open s fd then
+                   mkQ (qupd (q_open s) fd false) (q_gen s) (q_count s)
+                       (if erase then qupd (q_queue s) fd [] else q_queue s) (q_deliv s)
+                 else s
+  end.
+Definition qrun (erase : bool) (h : list qev) : qstate := fold_left (qstep erase) h qinit.
+Definition q_stale (s : qstate) : nat := length (filter (fun d => negb (Nat.eqb (fst d) (snd d))) (q_deliv s)).
